@@ -267,9 +267,11 @@ theorem minv_diffBranch {O log keys org start m} (hO : GoodOrders O) (hS : Scn l
   have hs0 := hS.sorted 0 hS.k0
   have hs1 := hS.sorted 1 hS.k1
   have hp := commonDiff_honest_pts w0 (by rw [hw0l]; exact hs0)
-    (by rw [hw0l, hw0p]; exact hS.above 0 hS.k0) _ _ msgs enc others p q slice hans
+    (by rw [hw0l, hw0p]; exact fun e he hk => (hS.above 0 hS.k0 e he hk).1)
+    (by rw [hw0l]; exact fun e he hk => (hS.above 0 hS.k0 e he hk).2.1) _ _ msgs enc others p q slice hans
   have hq := commonDiff_honest_qts w0 (by rw [hw0l]; exact hs1)
-    (by rw [hw0l, hw0q]; exact hS.above 1 hS.k1) _ _ msgs enc others p q slice hans
+    (by rw [hw0l, hw0q]; exact fun e he hk => (hS.above 1 hS.k1 e he hk).1)
+    (by rw [hw0l]; exact fun e he hk => (hS.above 1 hS.k1 e he hk).2.1) _ _ msgs enc others p q slice hans
   rw [hw0l] at hp hq
   -- kinds of what the answer carries
   have hsub : ∀ x ∈ (cut w0.slice (w0.happened.filter fun e : Entry =>
